@@ -327,7 +327,8 @@ def load_oracle(fx):
     cat = journalctl(fx["plain"], "cat")
     if cat != b"".join(e["cat"] for e in entries):
         problems.append("journalctl -o cat is not the concatenation of MESSAGE + newline")
-    fx["sorted"] = all(a <= b for a, b in zip(fx["times"], fx["times"][1:]))
+    # the theorem's hypotheses on the journal: non-decreasing, valid (positive) receive times
+    fx["sorted"] = all(a <= b for a, b in zip(fx["times"], fx["times"][1:])) and all(t > 0 for t in fx["times"])
     return problems[:10]
 
 
@@ -379,7 +380,7 @@ def gen_windows(rng, times, quick):
         W += [(a, b), (a + 1, b - 1), (a - 1, b + 1), (a, b - 1), (a + 1, b)]
     W += [(t0 - 10 ** 7, t0 - 1), (None, t0 - 1), (t0 - 5, None), (tN + 1, None), (tN + 1, tN + 10 ** 6), (None, tN + 10 ** 9),
           (0, None), (None, 0), (0, tN)]
-    # bounds before 1970 (known-finding class bound_before_unix_epoch)
+    # bounds before 1970 (clamped to 0 since the repair of bound_before_unix_epoch)
     W += [(-1, None), (None, -1), (-315619200 * 10 ** 6, None), (-5, -1)]
     out, seen = [], set()
     for w in W:
@@ -621,7 +622,7 @@ def run(ctx):
         for p in problems[:3]:
             ctx.obligation_broken("oracle", "journalctl vs libsystemd on %s" % fx["name"], p)
         if not fx["sorted"]:
-            ctx.note("fixture %s: receive times are not non-decreasing (outside the theorem's hypothesis)" % fx["name"])
+            ctx.note("fixture %s: receive times are not non-decreasing and positive (outside the theorem's hypotheses)" % fx["name"])
         # oracle contract J1 sampled on the real libsystemd
         D = sorted(set(fx["times"]))
         for a in [D[0] - 1, D[0], D[0] + 1, D[len(D) // 2] - 1, D[len(D) // 2], D[len(D) // 2] + 1, D[-1], D[-1] + 1] + rng.sample(D, min(4 if quick else 40, len(D))):
@@ -910,7 +911,7 @@ def run(ctx):
     ctx.assumptions += [
         "libsystemd is an oracle: contract J1 (seek_realtime_usec + next enumerate exactly the entries with t >= A in file order when receive times are non-decreasing; seek_head all) is a hypothesis of the theorems, sampled on the real library each run; enumeration of data objects, cursors and monotonic times are taken from it",
         "journalctl --file (systemd %s) -o export/cat/json is the ground truth for entry content; its export differs from the enumeration order only in the position of _BOOT_ID" % systemd_version(),
-        "journal fixtures with non-decreasing receive times (all shipped ones); bounds representable as u64 microseconds (0 <= bound); entries have fewer than 200 fields",
+        "journal fixtures with non-decreasing, positive receive times (all shipped ones; libsystemd VALID_REALTIME); bounds below 2^64 microseconds (bounds before 1970 included); entries have fewer than 200 fields",
         "the eight human-oriented renderings are compared for entry count, order and MESSAGE text only (timestamps by shape), their exact text is not modelled",
         "python twins (parse_export, utf8_is_printable_newline, next_short field assembly) are hand-written; parse_export is cross-checked against the Coq parser each run",
     ]
